@@ -47,6 +47,7 @@ else:
 
 from . import aggregation_layer
 from . import categorical_calibration_layer
+from . import cdf_layer
 from . import configs
 from . import kronecker_factored_lattice_layer as kfll
 from . import lattice_layer
@@ -523,6 +524,8 @@ def get_custom_objects(custom_objects=None):
           kfll.BiasInitializer,
       'CalibratedLatticeEnsemble':
           CalibratedLatticeEnsemble,
+      'CDF':
+          cdf_layer.CDF,
       'CalibratedLattice':
           CalibratedLattice,
       'CalibratedLatticeConfig':
